@@ -180,3 +180,26 @@ def shrink_xml_fields(case, fields, still_fails, budget=400):
             if changed:
                 break
     return case
+
+
+def shrink_list(case, field, still_fails, keep_last=False):
+    """Greedy: drop single entries of the list case[field] while still_fails."""
+    case = dict(case)
+    seq = list(case[field])
+    changed = True
+    while changed:
+        changed = False
+        stop = len(seq) - 1 if keep_last else len(seq)
+        for i in range(stop - 1, -1, -1):
+            trial = dict(case)
+            trial[field] = seq[:i] + seq[i + 1:]
+            try:
+                ok = still_fails(trial)
+            except Exception:
+                ok = False
+            if ok:
+                seq = trial[field]
+                changed = True
+                break
+    case[field] = seq
+    return case
